@@ -599,7 +599,11 @@ TreeOpOK(e, idx) ==
 (* result units (inputs multiplied by e.k).  Coverage of a point of a      *)
 (* subject line is decided two-sidedly: a point that must be covered has   *)
 (* to be within 3 of the open solution, a point that must not be covered   *)
-(* has to be farther than 1.5 from it.                                     *)
+(* has to be farther than 0.5 from it: such a point is more than 2 units   *)
+(* from every closed input edge, the boundary the lines are cut at may sit *)
+(* up to 1.3 units from the exact one (vertices of split edges are rounded *)
+(* in cascade) and the cut point itself is rounded (0.71), so the end of a *)
+(* legitimate solution piece can come as close as that to the point.       *)
 (***************************************************************************)
 OpenExpected(ct, fr, subj, clip, p) ==
   CASE ct = 1 -> InSet(fr, clip, p)
@@ -621,15 +625,21 @@ C09OK(e) ==
       FarIn(p) == FarClosed(p, subj, Band4) /\ FarClosed(p, clip, Band4) IN
   \* open paths never appear in, or alter, the closed solution
   /\ Dt("C09.closed-region", \A n \in 1..Len(e.probes) : RegionOKAt(e.ct, e.fr, subj, clip, e.sol, e.probes[n]))
-  /\ Dt("C09.tree", \A n \in 1..Len(e.tree) : Len(e.tree[n].poly) >= 3 /\ Area2(e.tree[n].poly) # 0)
+  \* ... nor appear in it: a closed result path without area (an open line returned as a polygon) must also be
+  \* returned, vertex for vertex, by the same call made without the open paths (e.solClosed).  Exact equality
+  \* of the two closed solutions is not demanded: the vertices of open paths add scan-lines, so intersection
+  \* points of closed edges may be rounded one unit differently (measured: 1.2% of calls), inside the band
+  /\ Dt("C09.closed-degenerate", \A n \in 1..Len(e.sol) :
+          (Len(e.sol[n]) < 3 \/ Area2(e.sol[n]) = 0) => \E m \in 1..Len(e.solClosed) : SameCyclic(e.solClosed[m], e.sol[n]))
   \* the open solution consists of sub-polylines of the subject lines
+  \* (a piece may degenerate to a single point where a line only touches the region)
   /\ \A j \in 1..Len(e.solOpen) : Dt(<<"C09.subpolyline", j>>,
-       /\ Len(e.solOpen[j]) >= 2
+       /\ Len(e.solOpen[j]) >= 1
        /\ \E i \in 1..Len(open) : FollowsInOrderR(open[i], e.solOpen[j], 8) \/ FollowsInOrderR(RevPath(open[i]), e.solOpen[j], 8))
   \* coverage
   /\ \A n \in 1..Len(e.onProbes) :
        LET p == e.onProbes[n] IN
-       Dt(<<"C09.coverage", p>>, FarIn(p) => IF OpenExpected(e.ct, e.fr, subj, clip, p) THEN NearOpen(p, e.solOpen, 12) ELSE FarOpen(p, e.solOpen, 6))
+       Dt(<<"C09.coverage", p>>, FarIn(p) => IF OpenExpected(e.ct, e.fr, subj, clip, p) THEN NearOpen(p, e.solOpen, 12) ELSE FarOpen(p, e.solOpen, 2))
 
 OpenOpOK(e, idx) ==
   /\ Chk("OUT", idx, OutOK(e))
